@@ -161,3 +161,23 @@ Theorem C11_tx_guard_strictly_weaker :
   forall b, (2 <= length (steps_of (plan_of current b (disk_of tx_ex_store) tx_ex_cache (OOverwrite tx_ex_tmpl))))%nat.
 Proof. exact tx_guard_strictly_weaker. Qed.
 Print Assumptions C11_tx_guard_strictly_weaker.
+
+(* histories under the buffer guard (same events as C11_history_safe; every operation passes guard_C11_tx in the state
+   it starts in, deletions only of entries nothing refers to); the hypothesis of C11_history_safe implies this one *)
+Theorem C11_history_safe_tx : forall v b l d c,
+  safe v b = true -> wf d c -> all_load (view d) -> history_ok_tx v b d c l ->
+  wf (fst (run_events v b d c l)) (snd (run_events v b d c l)) /\ all_load (view (fst (run_events v b d c l))).
+Proof. exact history_safe_tx. Qed.
+Print Assumptions C11_history_safe_tx.
+
+Theorem C11_history_tx_weaker : forall v b l d c,
+  safe v b = true -> wf d c -> all_load (view d) -> history_ok v b d c l -> history_ok_tx v b d c l.
+Proof. exact history_ok_weaker. Qed.
+Print Assumptions C11_history_tx_weaker.
+
+(* non-vacuity: a history (completion, raise, kill) over the template with the doubly used identifier *)
+Theorem C11_history_tx_nonvacuous :
+  forall b, history_ok_tx current b (disk_of tx_ex_store) tx_ex_cache tx_ex_history /\
+            (4 <= length (view (fst (run_events current b (disk_of tx_ex_store) tx_ex_cache tx_ex_history))))%nat.
+Proof. exact tx_history_nonvacuous. Qed.
+Print Assumptions C11_history_tx_nonvacuous.
